@@ -89,6 +89,7 @@ type Case struct {
 	FailFirst bool       `json:"fail_first"`
 	Rules     []RuleSpec `json:"rules"`
 	Roots     []int      `json:"roots"` // kind of the root event of each cascade
+	Reused    bool       `json:"reused,omitempty"` // the processor has been started, finished and Reset() once before the rules are added (what the CLI does before every load); the setting was made before
 }
 
 func TestMain(m *testing.M) { hx.Main(m, "C10", rule) }
@@ -109,7 +110,7 @@ func ruleName(i int) string  { return fmt.Sprintf("r%02d", i) }
 // input; generated cases are already inside). The reason is non-empty if the
 // case cannot be used.
 func normalise(c Case) (Case, string) {
-	n := Case{Workers: c.Workers, FailFirst: c.FailFirst}
+	n := Case{Workers: c.Workers, FailFirst: c.FailFirst, Reused: c.Reused}
 	if n.Workers < 1 {
 		n.Workers = 1
 	}
@@ -292,6 +293,14 @@ func execute(c Case) (*observation, *hx.Failure, bool) {
 	// the default "queue is filling up" warning only writes to stderr
 	proc.ThreadPool().TooManyThreshold = math.MaxInt32
 	proc.SetFailOnFirstErrorInTriggerSequence(c.FailFirst)
+	if c.Reused {
+		// a processor which is used again: settings are made once (NewECALRuntimeProvider), rules come and go
+		proc.Start()
+		proc.Finish()
+		if err := proc.Reset(); err != nil {
+			return nil, hx.Failf("harness:reset", "%v", err), false
+		}
+	}
 
 	for i := range c.Rules {
 		i := i
@@ -535,6 +544,9 @@ func runCase(in Case) *hx.Failure {
 		return fail
 	}
 	f, nontrivial, classes := evaluate(c, obs)
+	if c.Reused {
+		classes = append(classes, "processor.reused-after-reset")
+	}
 	hx.E.Case(nontrivial, key, classes...)
 	if nontrivial {
 		hx.E.Sample(key, map[string]interface{}{"case": c, "classes": classes})
@@ -1255,6 +1267,7 @@ func drawCase(rt *rapid.T) Case {
 		c.Workers = rapid.IntRange(2, 8).Draw(rt, "workers")
 	}
 	c.FailFirst = rapid.Bool().Draw(rt, "failfirst")
+	c.Reused = rapid.IntRange(0, 3).Draw(rt, "reused") == 0
 	// rapid prefers the first elements / small numbers: the common shapes come first
 	topKind := rapid.SampledFrom([]int{1, 2, 3, 1, 2, 3, 1, 2, 3, 0}).Draw(rt, "topkind")
 	minRules := 2
